@@ -105,6 +105,8 @@ static size_t h_half(size_t k, size_t m) { return (k / 2) % m; }
 static size_t h_zero(size_t k, size_t m) { (void)k; (void)m; return 0; }
 static cstl_hash_func_t * vf_fn(int f) { return f == 0 ? cstl_hash_div : (f == 1 ? h_half : h_zero); }
 
+/* which pool element / node is this?  -1 for anything else (a stray pointer is never dereferenced) */
+#ifdef VF_NATIVE
 static int vf_index_of(const void * e)
 {
     int i, idx = -1;
@@ -121,6 +123,25 @@ static int vf_node_index(const struct cstl_hash_node * n)
     }
     return idx;
 }
+#else
+/* the same by object / offset arithmetic (a sixth of the symbolic-execution steps of the loop) */
+static int vf_index_of(const void * e)
+{
+    size_t off;
+    if (e == NULL || !__CPROVER_same_object(e, vf_pool)) return -1;
+    off = __CPROVER_POINTER_OFFSET(e);
+    if (off % sizeof(struct vf_el) != 0 || off / sizeof(struct vf_el) >= VF_POOL) return -1;
+    return (int)(off / sizeof(struct vf_el));
+}
+static int vf_node_index(const struct cstl_hash_node * n)
+{
+    size_t off;
+    if (n == NULL || !__CPROVER_same_object(n, vf_pool)) return -1;
+    off = __CPROVER_POINTER_OFFSET(n);
+    if (off < offsetof(struct vf_el, hn) || (off - offsetof(struct vf_el, hn)) % sizeof(struct vf_el) != 0 || off / sizeof(struct vf_el) >= VF_POOL) return -1;
+    return (int)(off / sizeof(struct vf_el));
+}
+#endif
 static int vf_nlive(const struct vf_model * m)
 {
     int i, n = 0;
@@ -292,12 +313,12 @@ static int vf_visit_is_id(const void * e, void * p)
 /* one find of key k with a visit function accepting exactly element `want` (none if want < 0) */
 static void vf_find_check(struct cstl_hash * h, const struct vf_model * m, size_t k, int want)
 {
-    int i, w = want;
+    int i, w = want, offered_want = 0;
     void * r;
-    for (i = 0; i < VF_POOL; i++) vf_offers[i] = 0;
-    vf_offer_bad = 0;
+    /* the offer counters are zero here: initially, and reset below after every use */
     r = m_find(h, k, vf_visit_is_id, &w);
     VF_ASSERT(vf_offer_bad == 0, "find: only inserted elements are offered to the visit function");
+    vf_offer_bad = 0;
     for (i = 0; i < VF_POOL; i++) {
         const int has = m->live[i] && m->key[i] == k;
         VF_ASSERT(vf_offers[i] <= 1, "find: an element is offered to the visit function at most once");
@@ -305,12 +326,14 @@ static void vf_find_check(struct cstl_hash * h, const struct vf_model * m, size_
         if (want < 0) {
             VF_ASSERT(!has || vf_offers[i] == 1, "find: every live element with the key is offered when none is accepted");
         }
+        if (i == want) offered_want = vf_offers[i];
+        vf_offers[i] = 0;
     }
     if (want < 0) {
         VF_ASSERT(r == NULL, "find: NULL when the visit function accepts nothing");
     } else {
         VF_ASSERT(r == ELEM(want), "find: the live element accepted by the visit function is returned");
-        VF_ASSERT(vf_offers[want] == 1, "find: the accepted element was offered exactly once");
+        VF_ASSERT(offered_want == 1, "find: the accepted element was offered exactly once");
     }
 }
 /* find with no visit function: any live element with the key, NULL iff there is none */
@@ -476,6 +499,10 @@ static void vf_load_check(const struct cstl_hash * h, const struct vf_model * m)
 #ifndef VF_SMAX
 #define VF_SMAX 4
 #endif
+#ifndef VF_F1_LO
+#define VF_F1_LO 0
+#define VF_F1_HI 1
+#endif
 /* For every (f1) -> (m2,f2), every prefix length s of the keyed operations and every variant v:
  *   0 nothing more (keyed operations only)        3 cstl_hash_rehash (forced completion)
  *   1 a second resize to a third geometry         4 cstl_hash_shrink_to_fit
@@ -488,7 +515,7 @@ void h_b_rehash(void)
     size_t m2;
     int f1, f2, s, v;
     int saw_second_while_pending = 0, saw_back_while_pending = 0, saw_forced = 0, saw_shrink_forced = 0, saw_swap_pending = 0;
-    for (f1 = 0; f1 < 2; f1++) {
+    for (f1 = VF_F1_LO; f1 <= VF_F1_HI; f1++) {
         for (m2 = 1; m2 <= 4; m2++) {
             for (f2 = 0; f2 < 2; f2++) {
                 for (s = 0; s <= VF_SMAX; s++) {
@@ -550,9 +577,10 @@ void h_b_rehash(void)
             }
         }
     }
-    VF_REACH(vf_max_moved == (VF_M1 >= 3 ? 3 : VF_M1), "a keyed operation that relocates as many buckets as the bound allows");
+    VF_REACH(vf_max_moved >= (VF_M1 >= 3 ? 3 : VF_M1) && vf_max_moved <= 3, "a keyed operation that relocates as many buckets as the geometry and the bound allow");
     VF_REACH(vf_completed_by_op, "a keyed operation completes a rehash");
-    VF_REACH(vf_saw_new_bucket_node || VF_M1 == 4, "nodes seen in buckets added by a pending grow");
+    /* (with `half` the four keys occupy two old buckets and the first keyed operation completes the sweep) */
+    VF_REACH(vf_saw_new_bucket_node || VF_M1 == 4 || VF_M1 == 1 || VF_F1_LO > 0, "nodes seen in buckets added by a pending grow");
     VF_REACH(vf_saw_pending_shrink || VF_M1 == 1, "a pending shrink seen");
 #if VF_VAR_LO <= 1 && VF_VAR_HI >= 1
     VF_REACH(saw_second_while_pending, "second resize issued while the first is pending");
